@@ -122,7 +122,7 @@ Example C10_xlsb_styles_nonvacuous :
     Ok [Other; DateTime; TimeDelta; DateTime; TimeDelta].
 Proof. exact XlsbStyles_proofs.example_styles_legal. Qed.
 
-Example C10_xlsb_styles_collide :
+Example C10_xlsb_styles_collide_nonvacuous :
   existsb (fun r : XlsbRec.rawrec => XlsbStyles_proofs.has_pair 233 4 (snd r))
           (XlsbStyles.sl_mid XlsbStyles_proofs.example_styles) = true /\
   existsb (fun r : XlsbRec.rawrec => XlsbStyles_proofs.has_pair 231 4 (snd r))
